@@ -6,6 +6,6 @@ CONTRACTS = list(_C) + [WriteArrayAttribute, StoredEditsNative]
 
 MANIFEST = {
     "category": "proof",
-    "text": "BlockModel/Grid2D/Octree.centroids are verified against the format's formulas for all grid shapes, cell sizes (negative delimiters included), rotations, dips and origins: cell (i,j,k) sits at index k+i*nZ+j*nU*nZ (resp. i+j*nU), each coordinate equals origin + rotation(dip(midpoints)), and the number of centres equals the number of cells; every geometry setter of BlockModel/Grid2D/Octree/DrapeModel and Curve.cells/parts is verified (abstract execution of every path) to reset the caches derived from it. Curve cells<->parts derivation and the default octree tiling are exhaustive small-scope native checks (labelled bounded stand-ins). Round-5 additions: centres computed after another grid of the same orientation was exported, copied, clipped or had its centres array edited in place (no shared mutable helper results), and a stand-in where the caller keeps editing the arrays it passed to create() or to a setter (block model, octree, drape model, curve): the centres always belong to the geometry the object reports. Round-6 additions: write_array_attribute contract and stored part labels in this check; Grid2D setter histories.",
+    "text": "BlockModel/Grid2D/Octree.centroids are verified against the format's formulas for all grid shapes, cell sizes (negative delimiters included), rotations, dips and origins: cell (i,j,k) sits at index k+i*nZ+j*nU*nZ (resp. i+j*nU), each coordinate equals origin + rotation(dip(midpoints)), and the number of centres equals the number of cells; every geometry setter of BlockModel/Grid2D/Octree/DrapeModel and Curve.cells/parts is verified (abstract execution of every path) to reset the caches derived from it. Curve cells<->parts derivation and the default octree tiling are exhaustive small-scope native checks (labelled bounded stand-ins). Round-5 additions: centres computed after another grid of the same orientation was exported, copied, clipped or had its centres array edited in place (no shared mutable helper results), and a stand-in where the caller keeps editing the arrays it passed to create() or to a setter (block model, octree, drape model, curve): the centres always belong to the geometry the object reports. Round-6 additions: write_array_attribute contract and stored part labels in this check; Grid2D setter histories. Round-7 additions: every cache-reset setter contract has a case in which the file refuses the write: a field stored before the refusal has taken its derived cache down with it.",
     "note": "cos/sin/deg2rad uninterpreted, floats as reals (rounding not modelled); numpy meshgrid/ravel ordering, cumsum, matmul axioms assumed (audited); getters of stored scalars trusted (C03 sweep); DrapeModel.centroids itself not under contract.",
 }
